@@ -675,7 +675,11 @@ class Interp:
             if self.test(cond):
                 v = self.fexpr(lft)
             elif alt is None:
-                v = UNDEF  # migration.md: the else branch defaults to Undefined
+                # migration.md says "defaults to an instance of Undefined", the code yields nil.  nil is what
+                # the other documents imply: under StrictUndefined an Undefined here would raise without any
+                # variable missing (C16), and `{{ a if b }}` is documented to render nothing.  The two differ
+                # only in filters that tell nil from undefined (where, map ...): model nil.
+                v = None
             else:
                 v = self.filters(self.prim(alt), fl)
             return self.filters(v, tail)
